@@ -106,7 +106,8 @@ fn trace_hash(prop: &str, seed: u64, runs: u64, tier: Tier) -> i32 {
     }
     let mut h: u64 = 0xcbf29ce484222325;
     for p in &plans {
-        let b = run_batch(p.scenario.as_ref(), seed, runs, tier);
+        // never more runs than the scenario's own quick budget (the giant-stream scenarios have three)
+        let b = run_batch(p.scenario.as_ref(), seed, runs.min(p.runs_quick), tier);
         let mut items: Vec<String> = vec![];
         items.push(format!("{}:{}:{}", p.scenario.name(), b.evaluations, b.distinct_nontrivial));
         for (k, v) in &b.stats.counters {
@@ -121,6 +122,14 @@ fn trace_hash(prop: &str, seed: u64, runs: u64, tier: Tier) -> i32 {
         items.push(format!("ev={} or={}", b.stats.sim_events, b.stats.oracle_evals));
         for (i, f) in &b.failures {
             items.push(format!("{}:{}", i, f.viol.class));
+        }
+        for (k, v) in &b.class_counts {
+            items.push(format!("count {}={}", k, v));
+        }
+        if std::env::var("AVSIM_HASH_DEBUG").is_ok() {
+            for it in &items {
+                println!("HASHITEM {}", it);
+            }
         }
         for it in items {
             for byte in it.bytes() {
@@ -240,7 +249,6 @@ fn check_property(prop: &str, tier: Tier, seed: u64, scale: f64, only: Option<&s
             let e = by_class
                 .entry(f.viol.class.clone())
                 .or_insert_with(|| (name.clone(), *i, f.trace.clone(), f.viol.clone(), 0));
-            e.4 += 1;
             // start minimisation from the smallest failing trace of the class (ties: lowest run)
             if f.trace.to_string().len() < e.2.to_string().len() {
                 e.0 = name.clone();
@@ -249,6 +257,9 @@ fn check_property(prop: &str, tier: Tier, seed: u64, scale: f64, only: Option<&s
                 e.3 = f.viol.clone();
             }
         }
+    }
+    for (class, e) in by_class.iter_mut() {
+        e.4 = results.iter().map(|(_, b, _, _)| b.class_counts.get(class).copied().unwrap_or(0) as usize).sum();
     }
     for (name, v, trace) in &extra_viol {
         if v.class == "harness" {
